@@ -604,7 +604,12 @@ def eems2_result_names(ctx, tmp):
             desc = {"source": src, "outcome": out, "tool_exit": code, "tool_escaped": crash, "tool_stderr": err[-400:]}
             if not boundary_ok(out):
                 ctx.fail("EEMS 2.0 command file whose result name is given as %s (%s): %s escaped from from_source()/run()" % (v, tag, out), desc)
-            if crash != "-":
+            if isinstance(exc, SyntaxError):
+                # malformed text (`[k: [a]]`: a list is no tuple value): the property asks the report of the tool for MPilot errors only; the tool may end with
+                # that very SyntaxError - anything else escaping from it is held against it
+                if crash not in ("-", "SyntaxError"):
+                    ctx.fail("EEMS 2.0 command file whose result name is given as %s (%s): malformed text, the command-line tool died with %s" % (v, tag, crash), desc)
+            elif crash != "-":
                 ctx.fail("EEMS 2.0 command file whose result name is given as %s (%s): the command-line tool died with %s" % (v, tag, crash), desc)
             elif isinstance(exc, MPilotError) and (code == 0 or str(exc) not in err):
                 ctx.fail("EEMS 2.0 command file whose result name is given as %s (%s): fails with %s, the tool %s" % (
